@@ -37,6 +37,10 @@ Line-protocol ops of C09.
                                                   order": `synErrs` (`Spec/C09Pos.lean`; no compile on the model side); the
                                                   real side lists the recorded errors whose `Err` is one of the three sentinels
                                                   (`syntax_errors_exact`)
+  xcli  <opt> <template raw bytes> <elems> <keys>  what `rare expression --raw [--no-optimize] -d … -k … <template>` prints (the
+                                                  extra step `extra/C09.py` runs the built CLI): exit status, stdout (value +
+                                                  newline) or the first part of stderr (`CompilerErrors.Error()` + newline);
+                                                  standard function table; templates with builder errors are `unmodelled`
   kbapi <name> <template raw bytes>                `NewKeyBuilder()` (optimiser on), `Funcs(map)`, `HasFunc(name)`,
                                                   `StageCount()`, `DetailedError.Unwrap()` of every recorded error
   streex <opt> <tokens> <elems> <keys>            the same without the claim: any tree over the standard names; the
@@ -154,6 +158,24 @@ def handle (args : List String) : String :=
     match Hex.dec t with
     | some tb => "ok " ++ synErrsStr (synErrs splitArgs (fun n => (testRegistry n).isSome) (decodeRunes tb))
     | none => "bad-args"
+  | ["xcli", o, t, el, ks] =>
+    match Hex.dec t, decHexList el, decHexList ks with
+    | some tb, some elems, some keys =>
+      match compileBytes Rare.Drv.Expr.registry (o == "1") tb with
+      | .error m => Rare.Drv.Expr.panicAns m
+      | .ok (stages, errs) =>
+        match Rare.Drv.Expr.unmodelledTag errs with
+        | some n => "unmodelled " ++ n
+        | none =>
+          if errs.any (fun e => match e.kind with | .func _ => true | _ => false) then "unmodelled builder-error"
+          else
+            match compileError (fun tag => tag) tb errs with
+            | some m => s!"ok rc=2 out=- err={Hex.enc (m ++ [10])}"
+            | none =>
+              match (buildKey stages).run (Rare.Drv.Expr.mkCtx elems keys) with
+              | .error m => Rare.Drv.Expr.panicAns m
+              | .ok v => s!"ok rc=0 out={Hex.enc (v ++ [10])} err=-"
+    | _, _, _ => "bad-args"
   | ["kbapi", n, t] =>
     match Hex.dec n, Hex.dec t with
     | some nb, some tb =>
